@@ -359,3 +359,225 @@ def exhaustive_pairs():
 
 def single_file_case(cid, data):
     return {"id": cid, "files": {"root.jst": data.hex()}, "dirs": [], "root": "root.jst"}
+
+
+# ---------------------------------------------------------------------------- structured documents
+
+class Node:
+    def __init__(self, text, children=None, explicit=False):
+        self.text, self.children, self.explicit = text, children or [], explicit
+
+
+def flatten_nodes(nodes):
+    toks = []
+    for n in nodes:
+        toks.append((n.text, n.explicit))
+        toks.extend(flatten_nodes(n.children))
+        if n.explicit:
+            toks.append(")")
+    return toks
+
+
+def gen_response(rng, code=None):
+    code = code or rng.choice(["200", "201", "400", "404", "500"])
+    r = rng.random()
+    if r < 0.3:
+        return Node(code + " any")
+    if r < 0.5:
+        return Node(code + " @t")
+    if r < 0.7:
+        return Node(code + '\n{"a": 1}')
+    kids = []
+    if rng.random() < 0.6:
+        kids.append(Node('Headers\n{"h": "v"}'))
+    kids.append(Node(rng.choice(["Body any", 'Body\n{"b": 2}', "Body @t", "Body regex\n/ab/"])))
+    return Node(code, kids)
+
+
+def gen_method(rng, with_path, used_paths):
+    m = rng.choice(["GET", "POST", "PUT", "PATCH", "DELETE"])
+    text = m
+    if with_path:
+        p = "/m%d" % len(used_paths)
+        if rng.random() < 0.3:
+            p += "/{id}"
+        used_paths.append(p)
+        text += " " + p
+    if rng.random() < 0.3:
+        text += " // note %d" % rng.randint(0, 9)
+    kids = []
+    if rng.random() < 0.3:
+        kids.append(Node("Description\n  method text"))
+    if rng.random() < 0.2:
+        kids.append(Node("OperationId op%d" % rng.randint(0, 10 ** 6)))
+    if rng.random() < 0.3:
+        kids.append(Node("Tags @tg"))
+    if rng.random() < 0.3:
+        kids.append(Node('Query "q=1"\n{"q": 1}'))
+    if m != "GET" and rng.random() < 0.5:
+        rq = rng.random()
+        if rq < 0.4:
+            kids.append(Node('Request\n{"r": 1}'))
+        elif rq < 0.6:
+            kids.append(Node("Request @t"))
+        else:
+            kids.append(Node("Request", [Node('Headers\n{"h": "v"}'), Node('Body\n{"b": 1}')]))
+    codes = rng.sample(["200", "201", "400", "404", "500"], rng.randint(1, 3))
+    for c in codes:
+        kids.append(gen_response(rng, c))
+    rng.shuffle(kids)
+    return Node(text, kids)
+
+
+def gen_structured(rng, with_macros=True):
+    """a random document that follows the context table; returns list of root Nodes"""
+    roots = [Node("JSIGHT 0.3")]
+    if rng.random() < 0.6:
+        kids = [Node('Title "API %d"' % rng.randint(0, 99))]
+        if rng.random() < 0.5:
+            kids.append(Node("Version 1.%d" % rng.randint(0, 9)))
+        if rng.random() < 0.4:
+            kids.append(Node("Description\n  about the api"))
+        roots.append(Node("INFO", kids))
+    for i in range(rng.randint(0, 2)):
+        roots.append(Node("SERVER @s%d // server %d" % (i, i), [Node('BaseUrl "https://h%d/"' % i)]))
+    blocks = []
+    blocks.append(Node("TAG @tg // tag", [Node("Description\n  tag text")] if rng.random() < 0.4 else []))
+    blocks.append(Node('TYPE @t\n{"x": 1}'))
+    if rng.random() < 0.5:
+        blocks.append(Node("TYPE @u\n@t"))
+    if rng.random() < 0.5:
+        blocks.append(Node("ENUM @e\n[1, 2]"))
+    used = []
+    for i in range(rng.randint(1, 3)):
+        r = rng.random()
+        if r < 0.5:
+            kids = []
+            if rng.random() < 0.3:
+                kids.append(Node('Path\n{"id": 1}'))
+                upath = "/u%d/{id}" % i
+            else:
+                upath = "/u%d" % i
+            for _ in range(rng.randint(1, 3)):
+                kids.append(gen_method(rng, False, used))
+            # methods under one URL must differ
+            seen, uniq = set(), []
+            for k in kids:
+                key = k.text.split()[0]
+                if key in seen:
+                    continue
+                seen.add(key)
+                uniq.append(k)
+            blocks.append(Node("URL " + upath, uniq))
+        elif r < 0.85:
+            blocks.append(gen_method(rng, True, used))
+        else:
+            kids = [Node("Protocol json-rpc-2.0")]
+            for j in range(rng.randint(1, 2)):
+                mk = []
+                if rng.random() < 0.5:
+                    mk.append(Node("Description\n  rpc text"))
+                if rng.random() < 0.7:
+                    mk.append(Node('Params\n{"p": 1}'))
+                if rng.random() < 0.7:
+                    mk.append(Node('Result\n{"r": 1}'))
+                kids.append(Node("Method m%d_%d" % (i, j), mk))
+            blocks.append(Node("URL /rpc%d" % i, kids))
+    rng.shuffle(blocks)
+    roots += blocks
+    # explicit contexts on random containers
+    def sprinkle(nodes):
+        for n in nodes:
+            if n.children and rng.random() < 0.2:
+                n.explicit = True
+            sprinkle(n.children)
+    sprinkle(roots[1:])
+    if with_macros and rng.random() < 0.6:
+        roots = abstract_macros(rng, roots)
+    return roots
+
+
+def abstract_macros(rng, roots):
+    """move runs of sibling directives into MACROs (explicit body) and PASTE them"""
+    macros = []
+    counter = [0]
+
+    def visit(nodes, depth):
+        out = []
+        i = 0
+        while i < len(nodes):
+            n = nodes[i]
+            if depth > 0 and rng.random() < 0.25 and n.text.split()[0] not in ("Protocol", "Method", "Params", "Result", "Tags", "OperationId"):
+                ln = rng.randint(1, min(2, len(nodes) - i))
+                run = nodes[i:i + ln]
+                if all(r.text.split()[0] not in ("Protocol", "Method", "Params", "Result", "Tags", "OperationId", "TAG", "JSIGHT", "MACRO") for r in run):
+                    name = "@mc%d" % counter[0]
+                    counter[0] += 1
+                    for r in run:
+                        r.children = visit(r.children, depth + 1)
+                    macros.append(Node("MACRO " + name, run, explicit=True))
+                    out.append(Node("PASTE " + name))
+                    i += ln
+                    continue
+            n.children = visit(n.children, depth + 1)
+            out.append(n)
+            i += 1
+        return out
+
+    body = visit(roots[1:], 0)
+    pos = rng.randint(0, len(body))
+    return [roots[0]] + body[:pos] + macros + body[pos:]
+
+
+def perturb_tokens(rng, toks):
+    """small structural mutations of a valid token list (the malformed stream)"""
+    toks = list(toks)
+    r = rng.random()
+    if not toks:
+        return toks
+    i = rng.randrange(len(toks))
+    if r < 0.2:
+        del toks[i]
+    elif r < 0.4:
+        toks.insert(i, ")")
+    elif r < 0.6 and toks[i] != ")":
+        toks[i] = (toks[i][0], not toks[i][1])
+    elif r < 0.8:
+        k = rng.choice(KIND_LIST)
+        toks.insert(i, (rng.choice(RENDER[k]), rng.random() < 0.2))
+    else:
+        j = rng.randrange(len(toks))
+        toks[i], toks[j] = toks[j], toks[i]
+    return toks
+
+
+def split_includes(rng, toks, max_files=4):
+    """cut a token list at directive boundaries into an include tree: returns files {name: bytes}"""
+    files = {}
+    counter = [0]
+
+    def build(ts, depth, prefix):
+        if depth >= 3 or len(ts) < 2 or counter[0] >= max_files:
+            return render_tokens(ts) if ts else b""
+        out = []
+        i = 0
+        while i < len(ts):
+            if rng.random() < 0.25 and counter[0] < max_files and i > 0:
+                ln = rng.randint(1, min(4, len(ts) - i))
+                counter[0] += 1
+                sub = rng.choice(["", "", "sub/"])
+                name = "%sinc%d.jst" % (sub, counter[0])
+                files[prefix + name] = build(ts[i:i + ln], depth + 1, prefix + sub)
+                out.append(b"INCLUDE " + (b'"' + name.encode() + b'"' if rng.random() < 0.3 else name.encode()) + b"\n")
+                i += ln
+            else:
+                out.append(render_tokens([ts[i]]))
+                i += 1
+        return b"".join(out)
+
+    files["root.jst"] = build(toks, 0, "")
+    return files
+
+
+def project_case(cid, files, dirs=()):
+    return {"id": cid, "files": {n: d.hex() for n, d in files.items()}, "dirs": list(dirs), "root": "root.jst"}
